@@ -923,12 +923,14 @@ func runHistCase(o *Out, ci int, hc *histCase, nops int, distinct map[string]boo
 		o.Op("coll set "+collState(sol), "coll set")
 	}
 	// collOp: emit one modelled operation (nil: the operation is not modelled — resynchronise instead)
+	collSuffix := "" // what a coll line reports besides the state (the Boolean result of a group un-plan)
 	collOp := func(line string) {
 		if line == "" {
 			o.Op("coll set "+collState(sol), "coll set")
 			return
 		}
-		o.Op("coll "+line, "coll "+collState(sol))
+		o.Op("coll "+line, "coll "+collState(sol)+collSuffix)
+		collSuffix = ""
 		o.Count("coll-ops")
 	}
 	bits := func(kind string) string {
@@ -1525,7 +1527,8 @@ func runHistCase(o *Out, ci int, hc *histCase, nops int, distinct map[string]boo
 				}
 			}
 			if _, nested := u.(nextroute.SolutionPlanUnitsUnit); nested {
-				collLine = fmt.Sprintf("unplanUnits %d %s", cu(u.ModelPlanUnit().Index()), bits("unplan"))
+				collLine = fmt.Sprintf("unplanUnitsR %d %s", cu(u.ModelPlanUnit().Index()), bits("unplan"))
+				collSuffix = " ok=" + b01(ok)
 			} else {
 				collLine = fmt.Sprintf("unplanStops %d %s", cu(u.ModelPlanUnit().Index()), b01(ok))
 			}
